@@ -80,8 +80,13 @@ def histories(draw, big=False, want_logs=False, transports=('pty', 'pty', 'fd', 
     text_mode = draw(st.booleans())
     enc = None
     if text_mode:
-        enc = draw(st.sampled_from(['utf-8', 'utf-8', 'latin-1'] + (['utf-16'] if transport != 'pty' else [])))
+        enc = draw(st.sampled_from(['utf-8', 'utf-8', 'latin-1'] + (['utf-16'] if transport != 'pty' else ['utf-7'])))
     P = payloads(text_mode, enc, big)
+    if enc == 'utf-7':
+        # a codec in which control characters are not single bytes (U+0003 encodes to '+AAM-'); UTF-7 text has more
+        # than one valid spelling, so the payloads stay with characters that encode as themselves: what is examined
+        # here is that sendcontrol / sendeof / sendintr write one raw byte whatever the codec
+        P = st.text(alphabet='abXY09 ./', max_size=12)
     ops = []
     n = draw(st.integers(1, 8))
     nbig = 0
@@ -102,7 +107,7 @@ def histories(draw, big=False, want_logs=False, transports=('pty', 'pty', 'fd', 
         elif k == 8 and transport == 'pty':
             op = [draw(st.sampled_from(['sendeof', 'sendintr']))]
         elif k >= 9:
-            text = ''.join(draw(st.lists(st.sampled_from(['o', 'k', ' ', '\r\n', 'é' if text_mode else 'e']), min_size=0, max_size=8)))
+            text = ''.join(draw(st.lists(st.sampled_from(['o', 'k', ' ', '\r\n', 'é' if text_mode and enc != 'utf-7' else 'e']), min_size=0, max_size=8)))
             # the last flag: the peer's write for this read ends inside the first character of the next read's
             # text (unicode mode, multi-byte codecs), so the following operations happen with half a character
             # held back in the object's read decoder
